@@ -233,7 +233,11 @@ func (state *state) Update(token *Stateful, etag string) (*Stateful, error) {
 		state.tokens[token.Token] = token
 		err = state.rewrite()
 		if err != nil {
-			state.tokens[token.Token] = old
+			// if rewrite has reset the state, it will be
+			// reloaded from the file
+			if state.tokens != nil {
+				state.tokens[token.Token] = old
+			}
 			return nil, err
 		}
 		return token, nil
@@ -276,7 +280,9 @@ func (state *state) Delete(token string, etag string) error {
 	delete(state.tokens, token)
 	err = state.rewrite()
 	if err != nil {
-		state.tokens[token] = old
+		if state.tokens != nil {
+			state.tokens[token] = old
+		}
 		return err
 	}
 	return nil
